@@ -8,10 +8,36 @@ MC_NOTE = ("Trusted: TLC, the TLA+ specification as a faithful reading of the pr
            "stated small constants; random beyond.")
 
 # id -> (built?, technique, level text, design ref, note)
+BOOK_TECH = "TLA+ spec (BookOps/BookProps/Book.tla) model-checked by TLC; TLC-generated histories replayed into the real OrderBook with full-state comparison; recorded random traces validated by TLC (BookTrace.tla)"
+
 TABLE = {
-    "C01": ("TLA+ spec (Book.tla) model-checked by TLC; all TLC-generated histories replayed into OrderBook with full-state comparison and drain probe; recorded random traces validated by TLC (BookTrace.tla)",
+    "C01": (BOOK_TECH + "; drain probe reveals queue order",
             "Model checking of the reference matching engine's priority clauses on the specification, exhaustive replay of every bounded history into the real book (every intermediate state compared, queue order revealed by a drain probe), and TLC validation of long random traces recorded from the real book.",
             "6 C01"),
+    "C02": (BOOK_TECH + "; ViewsO recomputation from the logged order table at every event",
+            "Views computed from the queue equal views recomputed from the order table alone on every model state (TLC); every generated history's views compared with the real getters (ticks 1-2, levels 1-3, crossed books, reloads); on random traces TLC recomputes every view from the logged get_orders() at every event (ticks 1..10, levels 1..24).",
+            "6 C02"),
+    "C03": (BOOK_TECH + "; ledger clauses (append-only, well-formed, conservation against submitted volumes, counter) evaluated per event",
+            "Ledger clauses as TLC invariants/action properties on the model; trade log and counter are part of the compared projection of every generated history; on recorded traces TLC audits append-only, admission, conservation (against the volumes the harness submitted) and the counter.",
+            "6 C03"),
+    "C04": (BOOK_TECH + "; every request against every order in every status, no-op clause as full-projection equality",
+            "Lifecycle transition relation as a TLC action property; generator alphabets issue every request against every order in every status (trading on and off) and the replayer compares the complete observable state, which is exactly the no-op clause; random traces with 30% redundant requests validated by TLC.",
+            "6 C04"),
+    "C05": (BOOK_TECH + " with the clock discipline removed (clock advance 0)",
+            "The specification's queue is positional, so it has a definite answer for equal timestamps; all bounded histories with clock advance 0 (placements, re-queuing modifications, split API, reloads, toggles) replayed with drain probe, and random traces with 50% tie rate validated. Found and repaired defect F1.",
+            "6 C05"),
+    "C06": (BOOK_TECH + "; every modify shape on every order, drain probe",
+            "C06 clause as TLC action property; every modify shape (price in {keep, each grid price} x volume in {keep, smaller, equal, larger}) on every order in every status of every bounded book, followed by the drain probe that reveals the queue; random traces with a high modify rate validated.",
+            "6 C06"),
+    "C07": (BOOK_TECH + "; reload modelled as identity, original and reloaded copies both driven on; truncation sweep",
+            "Reload (string/file x compact/pretty) at every position of every bounded history with every continuation, original and up to three reloaded copies all compared with the specification after every later call; every strict prefix of sampled snapshots must be rejected with an error; random traces continue on the reloaded book.",
+            "6 C07"),
+    "C12": (BOOK_TECH + "; on/off-grid creations and modifications",
+            "Grid clauses as TLC invariants; generator alphabets with on- and off-grid prices for both creation calls and for modify (ticks 2, 3); random traces with arbitrary prices, ticks 2..10. Off-grid modify is a recorded known finding (F3).",
+            "6 C12"),
+    "C13": (BOOK_TECH + "; trading toggles at every position",
+            "C13 clauses as TLC action properties; toggles at every position of bounded histories (crossing placements/modifications while disabled, aggressors after re-enabling, rejected market orders), books starting disabled; random traces with frequent toggles.",
+            "6 C13"),
 }
 
 PENDING = {
